@@ -15,9 +15,8 @@ package main
 // observed result. Which calls run concurrently is up to the Go scheduler: the lines of a
 // concurrent phase are not reproducible from the seed, their agreement with the model is.
 //
-// Verify calls are serialised among themselves (verifyMu): Pool.Verify writes mp.fees while holding
-// only the read lock, two overlapping Verify calls are a data race that the Go runtime turns into a
-// fatal "concurrent map writes" (finding verify-race, shown by the -race run of the thorough tier).
+// Verify takes the write lock since e6b4f6b (it fills the balance cache): overlapping Verify calls are
+// ordinary concurrent calls here; the -race run of the thorough tier keeps an eye on them (race.go).
 
 import (
 	"bytes"
@@ -91,7 +90,7 @@ func (f *callFeer) GetUtilityTokenBalance(p, s util.Uint160) *big.Int {
 	return f.feer.GetUtilityTokenBalance(p, s)
 }
 
-func (r *runner) callConc(c *concState, cp *cop, verifyMu *sync.Mutex) {
+func (r *runner) callConc(c *concState, cp *cop) {
 	defs := r.sc.defs
 	switch cp.kind {
 	case opAdd:
@@ -111,11 +110,9 @@ func (r *runner) callConc(c *concState, cp *cop, verifyMu *sync.Mutex) {
 		cp.resp = c.ticket.Add(1)
 	case opVerify:
 		fe := &callFeer{feer: r.fe, fpb: r.fe.fpb}
-		verifyMu.Lock()
 		cp.inv = c.ticket.Add(1)
 		cp.panicked = protect(func() { cp.verdict = r.mp.Verify(defs[cp.i].tx, fe) })
 		cp.resp = c.ticket.Add(1)
-		verifyMu.Unlock()
 	case opStale:
 		fe := &callFeer{feer: r.fe, fpb: cp.fpb, onPolicy: func() { cp.lin = c.ticket.Add(1) }}
 		drop := map[util.Uint256]bool{}
@@ -168,7 +165,6 @@ func (r *runner) runConc(progs [][]op) *snapshot {
 		}
 	}
 	var wg sync.WaitGroup
-	var verifyMu sync.Mutex
 	for ci := range progs {
 		wg.Add(1)
 		go func(mine []*cop) {
@@ -180,7 +176,7 @@ func (r *runner) runConc(progs [][]op) *snapshot {
 				}
 				<-gates[n]
 				c.pending.Store(id, cp)
-				r.callConc(c, cp, &verifyMu)
+				r.callConc(c, cp)
 			}
 			c.pending.Delete(id)
 		}(perClient[ci])
